@@ -19,7 +19,10 @@ import time
 VERIF = os.path.dirname(os.path.dirname(os.path.abspath(__file__)))
 REPO = os.environ.get("VERIF_REPO", "/repo")
 CACHE = os.path.join(VERIF, ".cache")
-COQ = os.path.join(VERIF, "coq")
+COQ_MAIN = os.path.join(VERIF, "coq")
+# A run against a scratch tree (VERIF_REPO=...) works on a private copy of the Coq project, so that the
+# tables/programs regenerated from the scratch tree never disturb the development that describes /repo.
+COQ = COQ_MAIN if REPO == "/repo" else os.path.join(CACHE, "coq-" + ("r" + hashlib.sha256(REPO.encode()).hexdigest()[:10]))
 GUARD = "tablegen_lsp_verif"
 NCPU = os.cpu_count() or 4
 
@@ -122,6 +125,8 @@ def run_translators(names=None):
     """Regenerate coq/gen/*.v from REPO.  Returns dict name -> (ok, message)."""
     sys.path.insert(0, os.path.join(VERIF, "tools", "translate"))
     import importlib
+    _coq_private_copy()
+    os.makedirs(os.path.join(COQ, "gen"), exist_ok=True)
     res = {}
     tdir = os.path.join(VERIF, "tools", "translate")
     for fn in sorted(os.listdir(tdir)):
@@ -153,7 +158,22 @@ def coq_files():
     return out
 
 
+def _coq_private_copy():
+    """scratch-tree runs: refresh the private copy from the main development (sources always; build
+    products only when missing, so that it stays warm but gen/ keeps the scratch tree's versions)."""
+    if COQ == COQ_MAIN:
+        return
+    os.makedirs(COQ, exist_ok=True)
+    sh(["rsync", "-a", "--update", "--exclude", "gen/*.v", "--exclude", ".lia.cache", "--exclude", ".nia.cache",
+        COQ_MAIN + "/", COQ + "/"])
+    for fn in os.listdir(os.path.join(COQ_MAIN, "gen")):
+        dst = os.path.join(COQ, "gen", fn)
+        if fn.endswith(".v") and not os.path.exists(dst):
+            shutil.copy2(os.path.join(COQ_MAIN, "gen", fn), dst)
+
+
 def coq_prepare():
+    _coq_private_copy()
     files = coq_files()
     proj = "-Q gen TG.Gen\n-Q model TG.Model\n-Q proofs TG.Proofs\n-Q props TG.Props\n-Q extract TG.Extract\n" + \
         "-arg -w -arg -notation-overridden,-deprecated-hint-without-locality,-deprecated-instance-without-locality,-extraction-opaque-accessed,-extraction-reserved-identifier\n" + \
@@ -165,7 +185,7 @@ def coq_prepare():
 
 def coq_make(targets, timeout=1500):
     """Full .vo build of the given targets (never -vos).  Returns (ok, log)."""
-    with Lock("coq"):
+    with Lock("coq" if COQ == COQ_MAIN else "coq-" + os.path.basename(COQ)):
         coq_prepare()
         rc, out = sh(["make", "-j", str(NCPU), "-k"] + list(targets), cwd=COQ, timeout=timeout)
     return rc == 0, out
@@ -332,8 +352,8 @@ def build_model(name, timeout=900):
     newest = max(os.path.getmtime(s) for s in srcs)
     if os.path.exists(exe) and os.path.getmtime(exe) >= newest:
         return exe
-    with Lock("ocaml-" + name):
-        bdir = os.path.join(CACHE, "ocaml", name)
+    with Lock("ocaml-" + name + "-" + _repo_tag()):
+        bdir = os.path.join(CACHE, "ocaml", name if REPO == "/repo" else name + "-" + _repo_tag())
         os.makedirs(bdir, exist_ok=True)
         for s_ in srcs:
             shutil.copy(s_, bdir)
